@@ -171,10 +171,21 @@ impl Lift for SubWordValue {
                 _ => value,
             };
 
+            // A shift that moves the region (partly) out of the word cannot describe a sub-word of
+            // it
+            let offset = match offset.checked_add(shift) {
+                Some(offset)
+                    if offset.checked_add(length).is_some_and(|end| end <= WORD_SIZE_BITS) =>
+                {
+                    offset
+                }
+                _ => return None,
+            };
+
             // If we find a word, we can easily construct the return data
             let payload = SVD::SubWord {
                 value,
-                offset: offset + shift,
+                offset,
                 size: length,
             };
 
